@@ -80,6 +80,40 @@ $locs
 """, locs=locs, a=r.randint(0, 99), n=r.randint(1, 300), k=k, fin=fin)]
 
 
+def sc_env_suspended_fiber(r):
+    """closure over the locals of a fiber that is *suspended* (yield, debug, user signal): the environment
+    must stay on the fiber's stack across collections, so that later mutations by the fiber are seen"""
+    how = r.choice(["yield", "debug", "user5", "user0"])
+    susp = {"yield": "(yield %s)", "debug": "(signal :debug %s)", "user5": "(signal :user5 %s)", "user0": "(signal :user0 %s)"}[how]
+    mask = {"yield": ":y", "debug": ":d", "user5": ":u", "user0": ":u"}[how]
+    nloc = r.randint(0, 10)
+    locs = "\n".join("      (def pad%d (mkval %d))" % (i, i + 70) for i in range(nloc))
+    return [T(r"""
+(defn mk []
+  (def f (fiber/new (fn []
+$locs
+      (var cnt 0)
+      (var acc @[(mkval $a)])
+      (def c (fn [] [cnt (length acc) (last acc)]))
+      $s1
+      (++ cnt) (array/push acc (mkstr $b))
+      $s2
+      (set cnt (+ cnt 40)) (array/push acc (mkval $b))
+      :done) $mask))
+  (def c (resume f))
+  [f c])
+(def [f c] (mk))
+(churn $k)
+(emit "susp1" (c) (fiber/status f))
+(resume f)
+(churn $k)
+(emit "susp2" (c) (fiber/status f))
+(resume f)
+(churn 1)
+(emit "susp3" (c) (fiber/status f))
+""", locs=locs, a=r.randint(0, 99), b=r.randint(0, 99), k=r.randint(1, 6), s1=susp % "c", s2=susp % "nil", mask=mask)]
+
+
 def sc_env_loop_closures(r):
     n = r.randint(2, 8)
     return [T(r"""
@@ -923,6 +957,7 @@ def sc_gather(r):
 
 SCENARIOS = {
     "env_dead_fiber": sc_env_dead_fiber,
+    "env_suspended_fiber": sc_env_suspended_fiber,
     "env_loop_closures": sc_env_loop_closures,
     "chan_items": sc_chan_items,
     "chan_blocked_giver": sc_chan_blocked_giver,
